@@ -9,7 +9,8 @@ Correspondence, three parts (DESIGN.md section 6, C05):
      and the real `map(..., cleanup=False)` is run in a fresh interpreter; the property's clauses are evaluated directly
      (completes; same outputs as the uninterrupted run; no call for an element that was completely stored; the folder
      afterwards equals the uninterrupted folder) and status/outputs/calls are compared with the model run on the abstracted
-     state; also second crashes inside resumed runs (a few in quick), and thread pools in thorough;
+     state; also second crashes inside resumed runs (history-aware: what was completely stored after ANY interruption of the history
+     must not be recomputed - Lean `C05_stored_kept`, `C05_history_no_recompute`), and thread pools in thorough;
  (3) the k-th user call raises (`make_func(fail=)`), then the run is resumed.
 """
 from __future__ import annotations
@@ -32,23 +33,26 @@ import mapgen
 import terms
 
 PID = "C05"
-PROPS = ["PfModel.Props.C05", "PfModel.Props.C05Par"]
+PROPS = ["PfModel.Props.C05", "PfModel.Props.C05Par", "PfModel.Props.C05Hist"]
 DRIVER = "C05"
 RULE = ("corpus (element-wise map + reduction on file_array and dict; an un-mapped tuple-output function with a custom output_picker) then "
         "well-formed map pipelines of 1-3 functions from mapgen (element-wise/zip, outer product, partial and full reduction, internal axes via "
         "map(internal_shapes=), '... -> v[j]' producers, tuple outputs, plain functions), storages file_array and dict, sequential (thorough: also "
         "thread pools); every pipeline is traced once and then crashed at every event prefix and inside every write (half buffer; "
         "1 byte and all-but-one byte for the first write and run_info.json), each state resumed in a fresh interpreter; every user call index as "
-        "raise point; thorough: second crashes inside resumed runs. A case = (pipeline, storage, mode, crash history); non-trivial = the crashed "
-        "folder is neither empty nor complete; distinct by digest of the case")
+        "raise point; second crashes inside traced resumed runs: first interruption = random in-between states, the COMPLETE folder, the first state "
+        "inside the persist loop of dict storage, a raising call; second interruption = random crash points of the resumed run plus every window in "
+        "which its trace has lost a file that was complete when it started; the third run is judged against what was stored after EITHER interruption. "
+        "A case = (pipeline, storage, mode, crash history); non-trivial = the crashed folder is neither empty nor complete; distinct by digest of the case")
 ASSUMPTIONS = ["process death is modelled as stopping between or inside file-system calls with POSIX rename atomic; loss of un-synced data and "
                "kills inside CPython's buffered writer are represented only by the torn-write states",
                "the re-run uses the same pipeline and inputs (the comparison with the previous run is between equal requests)",
                "shutil.rmtree of cleanup=True is atomic in the model; first runs start in a folder that does not exist",
-               "shared_memory_dict is not exercised here (its persistence defect DF-13 belongs to C07); file_array and dict are",
+               "shared_memory_dict (a manager-backed dict persisted like `dict`; model: `Cfg.dict`) is exercised sequentially only: one corpus pipeline, three generated ones in thorough",
                "pool runs (thread pools only; process pools are not exercised): every global prefix of the merged strace order is taken as a crash state"]
 
 WORKERS = int(os.environ.get("VERIF_C05_WORKERS", "16"))
+DICT_LIKE = ("dict", "shared_memory_dict")      # memory storages persisted at the end of the run into outputs/<o>/dict_array.cloudpickle (model: `Cfg.dict`)
 KINDS = ["elem", "elem", "outer", "partial", "full", "internal", "gen", "scalar"]
 
 
@@ -90,6 +94,12 @@ def _mix_case():
     return {"funcs": [f, g, h], "inputs": [["x0", {"arr": [[2], [_in("x0", [i]) for i in range(2)]]}]], "input_kinds": {"x0": "array"}, "internal": [], "sizes": {}}
 
 
+def _chain_case():
+    f = _func("f0", ["x0"], ["y0"], {"inputs": [["x0", ["i"]]], "outputs": [["y0", ["i"]]]})
+    g = _func("f1", ["y0"], ["y1"], {"inputs": [["y0", ["i"]]], "outputs": [["y1", ["i"]]]})
+    return {"funcs": [f, g], "inputs": [["x0", {"arr": [[2], [_in("x0", [i]) for i in range(2)]]}]], "input_kinds": {"x0": "list"}, "internal": [], "sizes": {}}
+
+
 def _dflt(name, n):
     return {"arr": [[n], [{"f": "dflt", "k": [["n", {"s": name}], ["at", {"arr": [[1], [q]]}]]} for q in range(n)]]}
 
@@ -113,6 +123,9 @@ CORPUS = [
     # into the model: `crashfs.canon` must be idempotent on them)
     {"desc": _seq_default_case("_nd", "_pair"), "storage": "file_array", "mode": "seq", "picker": []},
     {"desc": _seq_default_case("_lst", "_nd"), "storage": "dict", "mode": "seq", "picker": []},
+    # the third persisting storage: a manager-backed dict persisted like `dict` (two mapped outputs: a kill inside the persist loop leaves
+    # one snapshot; seeded change C05-s2-B names it: "shared_memory_dict gets FileNotFoundError in the same state")
+    {"desc": _chain_case(), "storage": "shared_memory_dict", "mode": "seq", "picker": []},
 ]
 
 
@@ -157,7 +170,7 @@ def func_order(case):
 
 def is_dict(case, fname):
     """Does the function's output live in a DictArray?  `case["other"]` lists the functions that use the non-default storage."""
-    return (case["storage"] == "dict") != (fname in (case.get("other") or []))
+    return (case["storage"] in DICT_LIKE) != (fname in (case.get("other") or []))
 
 
 def body_orders(case, model_calls_, real):
@@ -183,7 +196,7 @@ def model_req(case, cfg=None, **extra):
     a = dict(mapgen.model_request(case["desc"]))
     pos = {n: i for i, n in enumerate(func_order(case))}
     a["funcs"] = sorted(a["funcs"], key=lambda f: pos.get(f["name"], len(pos)))
-    a["cfg"] = {"dict": case["storage"] == "dict", "other": list(case.get("other") or []), **(cfg or {})}
+    a["cfg"] = {"dict": case["storage"] in DICT_LIKE, "other": list(case.get("other") or []), **(cfg or {})}
     a.update(extra)
     return a
 
@@ -250,8 +263,12 @@ def data_files(fs_abs):
 
 
 # ------------------------------------------------------------------------------------------------ judging one resumed state
-def judge_resume(ctx, case, history, fs_abs, impl, impl_calls, after_abs, full, model):
-    """`history` describes how the folder state was produced; `full` is the uninterrupted run (outputs, model calls, folder)."""
+def judge_resume(ctx, case, history, fs_abs, impl, impl_calls, after_abs, full, model, prior=(), stored_before=()):
+    """`history` describes how the folder state was produced; `full` is the uninterrupted run (outputs, model calls, folder).
+    `prior` = the abstract folders left by the EARLIER interruptions of the history: what was completely stored after any of them
+    counts as stored (a resumed run that is killed must not have lost it: Lean `C05_stored_kept` / `C05_history_no_recompute`);
+    `stored_before` = files (json model paths) that were complete at SOME point of the interrupted runs before they were killed
+    (`crashfs.ever_complete`): a run that stores a result and removes it again before the interruption has still stored it."""
     rec = rec_of(case, history)
     files = data_files(fs_abs)
     nontrivial = bool(files) and files != full["files"]
@@ -270,6 +287,13 @@ def judge_resume(ctx, case, history, fs_abs, impl, impl_calls, after_abs, full, 
                       model={n: full["outputs"][n] for n in bad}, key="resume differs")
         return
     complete = {p for p, c in files.items() if c != "P"}
+    earlier = {p for p in stored_before if json.loads(p)[0] != "tmp"}
+    for fs_prev in prior:
+        earlier |= {p for p, c in data_files(fs_prev).items() if c != "P"}
+    lost = earlier - complete           # completely stored after an earlier interruption, absent or partial now
+    if lost:
+        ctx.count("history:stored-file-lost")
+    complete = complete | earlier
     impl_c = canon_calls(impl_calls)
     # a call is identified by (function, keyword values); elements whose keyword values coincide (an upstream interpreted constant
     # function: `y0[i, k]` all "" next to `x1[i]`) are indistinguishable in the call log, so they are counted per group: more calls than
@@ -282,9 +306,12 @@ def judge_resume(ctx, case, history, fs_abs, impl, impl_calls, after_abs, full, 
             paths = [json.dumps(["dictArr", o]) for o in f["outputs"]]      # stored = the persisted dict of every output exists
         else:
             paths = [json.dumps(["cell", o, li] if mapped else ["single", o]) for o in f["outputs"]]
-        g = groups.setdefault(json.dumps(canon_calls([[fn, kw]])[0]), {"fn": fn, "stored": [], "open": 0})
+        g = groups.setdefault(json.dumps(canon_calls([[fn, kw]])[0]), {"fn": fn, "stored": [], "open": 0, "lost": []})
         if all(p in complete for p in paths):
-            g["stored"].append(li)
+            # elements the killed resumed run lost come first: they are the ones a recomputation is about
+            g["stored"].insert(0, li) if any(p in lost for p in paths) else g["stored"].append(li)
+            if any(p in lost for p in paths):
+                g["lost"].append(li)
         else:
             g["open"] += 1
     ncalls = {}
@@ -292,8 +319,14 @@ def judge_resume(ctx, case, history, fs_abs, impl, impl_calls, after_abs, full, 
         ncalls[json.dumps(c)] = ncalls.get(json.dumps(c), 0) + 1
     for key, g in groups.items():
         if g["stored"] and ncalls.get(key, 0) > g["open"]:
-            ctx.violation(rec, f"`{g['fn']}` was called again for element {g['stored'][0]} although all its outputs were completely stored",
-                          impl={"calls": impl_c}, key="recomputed stored element")
+            if g["lost"]:
+                how = (f"all its outputs were completely stored after the first interruption, the resumed run that was killed next ({history[-1].get('next')!r} pending) "
+                       f"had removed them" if prior else "all its outputs had been completely stored by the interrupted run, which removed them again before it stopped")
+                ctx.violation(rec, f"`{g['fn']}` was called again for element {g['lost'][0]}: {how} ({sorted(lost)[:3]})",
+                              impl={"calls": impl_c, "lost": sorted(lost)}, key="recomputed element stored before an earlier interruption")
+            else:
+                ctx.violation(rec, f"`{g['fn']}` was called again for element {g['stored'][0]} although all its outputs were completely stored",
+                              impl={"calls": impl_c}, key="recomputed stored element")
             return
     if data_files(after_abs) != full["files"]:
         a, b = data_files(after_abs), full["files"]
@@ -325,17 +358,35 @@ def stages_state(lab, stages):
 
 
 def resume_state(lab, case, stages, trace=False):  # noqa: FBT002
-    """Materialise, abstract, resume in a fresh interpreter.  Returns everything `judge_resume` needs."""
-    dst = stages_state(lab, stages)
+    """Materialise, abstract, resume in a fresh interpreter.  Returns everything `judge_resume` needs.  A traced run whose trace
+    cannot be read is repeated once (strace output under heavy load), then reported."""
+    st = _resume_state(lab, case, stages, trace)
+    if trace and "unmodelled" in st:
+        st = _resume_state(lab, case, stages, trace)
+    return st
+
+
+def _resume_state(lab, case, stages, trace):
+    dst = None
     try:
+        dst = stages_state(lab, stages)
         fs_abs = crashfs.abstract(dst)
         impl, ev, calls = lab.run(lab.spec(case, dst, False, mode="seq" if trace else None), trace=trace)
-        after = crashfs.abstract(dst) if "ok" in impl else None
+        if "ok" in impl:
+            try:
+                after = crashfs.abstract(dst)
+            except crashfs.Unmodelled as e:        # the run left something behind that has no counterpart: judged as a folder that differs
+                after = {"files": [[["?", str(e)[:80]], "P"]], "dirs": []}
+        else:
+            after = None
         return {"fs": fs_abs, "impl": impl, "calls": calls, "after": after, "events": ev, "folder": dst}
-    except crashfs.Unmodelled as e:
+    except (crashfs.Unmodelled, fstrace.TraceError) as e:
         return {"unmodelled": str(e)}
+    except Exception as e:  # noqa: BLE001  (replaying what pipefunc did must never crash the harness: an observation)
+        return {"unmodelled": f"harness: {type(e).__name__}: {e}"[:300]}
     finally:
-        lab.cleanup(dst)
+        if dst:
+            lab.cleanup(dst)
 
 
 def rec_of(case, history):
@@ -351,7 +402,12 @@ def kill_hist(ev, folder, k, tear):
 
 
 def trace_case(lab, case):
-    """Phase A: the uninterrupted run, traced."""
+    """Phase A: the uninterrupted run, traced (repeated once when the trace cannot be read)."""
+    t = _trace_case(lab, case)
+    return _trace_case(lab, case) if "unmodelled" in t else t
+
+
+def _trace_case(lab, case):
     f0 = lab.slot()
     try:
         res0, ev0, _calls = lab.run(lab.spec(case, f0, True), trace=True)
@@ -359,6 +415,8 @@ def trace_case(lab, case):
         return {"case": case, "f0": f0, "res0": res0, "ev0": ev0, "full_abs": full_abs}
     except (crashfs.Unmodelled, fstrace.TraceError) as e:
         return {"case": case, "f0": f0, "unmodelled": str(e)}
+    except Exception as e:  # noqa: BLE001
+        return {"case": case, "f0": f0, "unmodelled": f"harness: {type(e).__name__}: {e}"[:300]}
     finally:
         lab.cleanup(f0)
 
@@ -375,11 +433,13 @@ def raise_one(lab, case, order, g):
         return {"first": r1, "events": ev1, "fs": fs_abs, "impl": r2, "calls": c2, "after": after, "folder": d, "fn": fn, "idx": idx, "g": g}
     except (crashfs.Unmodelled, fstrace.TraceError) as e:
         return {"unmodelled": str(e), "g": g}
+    except Exception as e:  # noqa: BLE001
+        return {"unmodelled": f"harness: {type(e).__name__}: {e}"[:300], "g": g}
     finally:
         lab.cleanup(d)
 
 
-def check_all(ctx, lab, cases, second=0, max_states=None, max_raises=None, second_pts=24):
+def check_all(ctx, lab, cases, second=0, max_states=None, max_raises=None, second_pts=24, raises2=1, raise_firsts_cap=10**9):
     # ---------------- phase A: uninterrupted runs under strace; one model batch
     traced = list(lab.pool.map(lambda c: trace_case(lab, c), cases))
     ctx.notes.append(f"t(traced runs)={ctx.elapsed():.1f}s")
@@ -454,6 +514,7 @@ def check_all(ctx, lab, cases, second=0, max_states=None, max_raises=None, secon
         if ms and len(pts) > ms:
             # the last point (nothing lost: the COMPLETE folder is resumed, every stored value is read back) is always kept
             pts = [pts[i] for i in sorted(ctx.rng.sample(range(len(pts) - 1), ms - 1))] + [pts[-1]]
+        t["ever0"] = crashfs.ever_complete(ev0, f0)
         for k, tear in pts:
             jobs.append((t, [kill_hist(ev0, f0, k, tear)], lab.pool.submit(resume_state, lab, case, [(ev0, k, tear, f0)])))
         t["raise_jobs"] = []
@@ -467,7 +528,7 @@ def check_all(ctx, lab, cases, second=0, max_states=None, max_raises=None, secon
     for t, h, fut in jobs:
         st = fut.result()
         if "unmodelled" in st:
-            ctx.skip("unmodelled-file"); continue
+            unmodelled(ctx, rec_of(t["case"], h), st); continue
         ctx.count("crash:torn" if h[-1]["torn_bytes"] is not None else "crash:prefix")
         reqs.append({"m": "map.run_on", "a": model_req(t["case"], fs=st["fs"])})
         todo.append(("kill", t, h, st))
@@ -475,7 +536,7 @@ def check_all(ctx, lab, cases, second=0, max_states=None, max_raises=None, secon
         for fut in t["raise_jobs"]:
             st = fut.result()
             if "unmodelled" in st:
-                ctx.skip("unmodelled-file"); continue
+                unmodelled(ctx, rec_of(t["case"], [{"kind": "raise", "global_call": st["g"]}]), st); continue
             reqs.append({"m": "map.events", "a": model_req(t["case"], cfg={"fail_at": st["g"]})})
             reqs.append({"m": "map.run_on", "a": model_req(t["case"], fs=st["fs"])})
             todo.append(("raise", t, [{"kind": "raise", "function": st["fn"], "call_index": st["idx"], "global_call": st["g"]}], st))
@@ -486,7 +547,7 @@ def check_all(ctx, lab, cases, second=0, max_states=None, max_raises=None, secon
         case = t["case"]
         if kind == "kill":
             st["hist"] = h
-            judge_resume(ctx, case, h, st["fs"], st["impl"], st["calls"], st["after"], t["full"], next(outs)["r"])
+            judge_resume(ctx, case, h, st["fs"], st["impl"], st["calls"], st["after"], t["full"], next(outs)["r"], stored_before=t["ever0"][h[0]["after_events"]])
             t.setdefault("states", []).append(st)
             continue
         mfail, mres = next(outs)["r"], next(outs)["r"]
@@ -499,46 +560,92 @@ def check_all(ctx, lab, cases, second=0, max_states=None, max_raises=None, secon
             if crashfs.canon_real(st["events"], st["folder"]) != crashfs.canon_model(mfail["events"]) or mfail["result"].get("err") != "raised":
                 ctx.violation(rec, "event list of a run whose user function raises differs from the model's", found_input=False, item="correspondence:trace-raise")
             ctx.record(rec_of(case, h + [{"kind": "trace"}]), True, validated=True)
-        except crashfs.Unmodelled:
-            ctx.skip("unmodelled-file")
-        judge_resume(ctx, case, h, st["fs"], st["impl"], st["calls"], st["after"], t["full"], mres)
+        except crashfs.Unmodelled as e:
+            unmodelled(ctx, rec, {"unmodelled": str(e)})
+        st["ever"] = crashfs.ever_complete(st["events"], st["folder"])[-1]
+        judge_resume(ctx, case, h, st["fs"], st["impl"], st["calls"], st["after"], t["full"], mres, stored_before=st["ever"])
+        if "ok" in st["impl"]:
+            t.setdefault("raise_states", []).append((h, st))
     # ---------------- phase C: second crashes inside resumed runs (traced); two model batches
+    # First interruptions: `second` random in-between states per pipeline, plus two directed ones - the COMPLETE folder (kill after
+    # the last event: everything is stored, and the resumed run rewrites run_info.json, inputs, defaults and every dict snapshot, so
+    # every rewrite window of the resumed run has a stored result at stake) and, for dict storage, the first state in which a
+    # persisted dict exists while the folder is not complete (inside the persist loop).  Second interruptions: `second_pts` random
+    # crash points of the traced resumed run, plus every window in which the trace of the resumed run has LOST a file that was
+    # complete when it started (`crashfs.lost_at`; none on a tree that keeps `C05_stored_kept`).  The third run is judged against
+    # what was stored after EITHER interruption.
     if not second:
         return
     firsts = []
     for t in live:
+        sts = [st for st in t.get("states", []) if "ok" in st["impl"] and st["hist"][0]["torn_bytes"] is None]
         cand = [st for st in t.get("states", []) if "ok" in st["impl"] and data_files(st["fs"]) not in ({}, t["full"]["files"])]
-        for st in (ctx.rng.sample(cand, min(second, len(cand))) if cand else []):
+        chosen = [("random", st) for st in (ctx.rng.sample(cand, min(second, len(cand))) if cand else [])]
+        done = [st for st in sts if st["hist"][0]["after_events"] == len(t["ev0"])]
+        chosen += [("complete", st) for st in done[:1]]
+        mid = [st for st in sts if data_files(st["fs"]) != t["full"]["files"] and any(json.loads(p)[0] == "dictArr" and c != "P" for p, c in data_files(st["fs"]).items())]
+        chosen += [("persist", st) for st in sorted(mid, key=lambda st: st["hist"][0]["after_events"])[:1] if all(st is not c for _, c in chosen)]
+        for why, st in chosen:
             h = st["hist"]
             stage = (t["ev0"], h[0]["after_events"], h[0]["torn_bytes"], t["f0"])
-            firsts.append((t, h, stage, lab.pool.submit(resume_state, lab, t["case"], [stage], True)))
-    firsts = [(t, h, stage, fut.result()) for t, h, stage, fut in firsts]
-    firsts = [x for x in firsts if "unmodelled" not in x[3] and "ok" in x[3]["impl"]]
-    m1s = ctx.lean([{"m": "map.run_on", "a": model_req(t["case"], fs=first["fs"])} for t, _h, _s, first in firsts]) if firsts else []
+            ctx.count("first-interruption:" + why)
+            firsts.append((t, h, stage, why, lab.pool.submit(resume_state, lab, t["case"], [stage], True)))
+        # ... and a first interruption that is a RAISING user call (the folder the failing run left = all events of its trace)
+        rs = [x for x in t.get("raise_states", []) if data_files(x[1]["fs"]) not in ({}, t["full"]["files"])]
+        for h, st in (ctx.rng.sample(rs, min(raises2, len(rs))) if rs and len(firsts) < raise_firsts_cap else []):
+            stage = (st["events"], len(st["events"]), None, st["folder"])
+            ctx.count("first-interruption:raise")
+            firsts.append((t, h, stage, "raise", lab.pool.submit(resume_state, lab, t["case"], [stage], True)))
+    firsts = [(t, h, stage, why, fut.result()) for t, h, stage, why, fut in firsts]
+    for t, h, _stage, _why, first in firsts:
+        if "unmodelled" in first:
+            unmodelled(ctx, rec_of(t["case"], h + [{"kind": "trace"}]), first)
+    firsts = [x for x in firsts if "unmodelled" not in x[4] and "ok" in x[4]["impl"]]
+    m1s = ctx.lean([{"m": "map.run_on", "a": model_req(t["case"], fs=first["fs"])} for t, _h, _s, _w, first in firsts]) if firsts else []
     jobs = []
-    for (t, h, stage, first), m1 in zip(firsts, m1s):
+    for (t, h, stage, why, first), m1 in zip(firsts, m1s):
         case, ev1, f1 = t["case"], first["events"], first["folder"]
         try:
             if crashfs.canon_real(ev1, f1) != crashfs.canon_model(m1["r"]["events"], first["fs"]["dirs"]):
                 ctx.violation(rec_of(case, h + [{"kind": "trace"}]), "event list of a resumed run differs from the model's", found_input=False,
                               item="correspondence:trace-resumed")
             ctx.record(rec_of(case, h + [{"kind": "trace"}]), True, validated=True)
-        except crashfs.Unmodelled:
-            ctx.skip("unmodelled-file")
+        except crashfs.Unmodelled as e:
+            unmodelled(ctx, rec_of(case, h + [{"kind": "trace"}]), {"unmodelled": str(e)})
         pts2 = crashfs.crash_points(ev1)
-        pts2 = [pts2[i] for i in sorted(ctx.rng.sample(range(len(pts2)), min(len(pts2), second_pts)))]
-        for k2, t2 in pts2:
-            jobs.append((t, h + [kill_hist(ev1, f1, k2, t2)], lab.pool.submit(resume_state, lab, case, [stage, (ev1, k2, t2, f1)])))
+        n2 = second_pts if why == "random" else max(2, second_pts // 2)
+        pts2 = [pts2[i] for i in sorted(ctx.rng.sample(range(len(pts2)), min(len(pts2), n2)))]
+        lost = crashfs.lost_at(ev1, f1, first["fs"])
+        ever1 = crashfs.ever_complete(ev1, f1, first["fs"])
+        ever0 = t["ever0"][h[0]["after_events"]] if h[0]["kind"] == "kill" else crashfs.ever_complete(stage[0], stage[3])[-1]
+        directed = [(k, None) for k in crashfs.loss_points(lost)]
+        if directed:
+            ctx.count("resumed-run-loses-stored-file", len(directed))
+            if len(directed) > 8:
+                directed = [directed[i] for i in sorted(ctx.rng.sample(range(len(directed)), 8))]
+        for k2, t2 in directed + [p for p in pts2 if p not in directed]:
+            h2 = kill_hist(ev1, f1, k2, t2)
+            if t2 is None and lost[k2]:
+                h2["lost"] = lost[k2][:6]
+            jobs.append((t, h + [h2], (first["fs"], ever0 | ever1[k2]), lab.pool.submit(resume_state, lab, case, [stage, (ev1, k2, t2, f1)])))
     reqs, todo = [], []
-    for t, h, fut in jobs:
+    for t, h, fs1, fut in jobs:
         st = fut.result()
         if "unmodelled" in st:
-            ctx.skip("unmodelled-file"); continue
+            unmodelled(ctx, rec_of(t["case"], h), st); continue
         ctx.count("crash:second")
         reqs.append({"m": "map.run_on", "a": model_req(t["case"], fs=st["fs"])})
-        todo.append((t, h, st))
-    for (t, h, st), o in zip(todo, ctx.lean(reqs) if reqs else []):
-        judge_resume(ctx, t["case"], h, st["fs"], st["impl"], st["calls"], st["after"], t["full"], o["r"])
+        todo.append((t, h, fs1, st))
+    for (t, h, fs1, st), o in zip(todo, ctx.lean(reqs) if reqs else []):
+        judge_resume(ctx, t["case"], h, st["fs"], st["impl"], st["calls"], st["after"], t["full"], o["r"], prior=[fs1[0]], stored_before=fs1[1])
+
+
+def unmodelled(ctx, rec, st):
+    """The harness could not replay / abstract what the implementation did (an operation, a file or a failure the model has no
+    counterpart for): an observation, not a crash of the harness - reported as a disagreement without a failing input."""
+    ctx.skip("unmodelled-file")
+    ctx.violation(rec, f"what the run did cannot be replayed against the model: {st['unmodelled'][:200]}", found_input=False,
+                  item="correspondence:replay", key="replay " + st["unmodelled"][:40])
 
 
 # ------------------------------------------------------------------------------------------------ entry points
@@ -551,14 +658,16 @@ def run(ctx):
             d = gen_case(ctx.rng)
             mapped = [f["name"] for f in d["funcs"] if f["mapspec"] and f["mapspec"]["inputs"]]
             other = [n for n in mapped if ctx.rng.random() < 0.5] if k % 4 == 3 else []      # every 4th pipeline: a per-output storage mix
-            cases.append({"desc": d, "storage": "file_array" if k % 3 != 2 else "dict", "other": other, "mode": "seq", "picker": []})
+            storage = "file_array" if k % 3 != 2 else "shared_memory_dict" if k % 12 == 5 and not other else "dict"      # (k = 5, 17, 29: thorough only)
+            cases.append({"desc": d, "storage": storage, "other": other, "mode": "seq", "picker": []})
         for k in range(ctx.n(1, 6)):          # bodies of every generation in a random order (C03's permuting executor): `runOnP`
             cases.append({"desc": gen_case(ctx.rng), "storage": ["file_array", "dict"][k % 2], "mode": "perm", "perm_seed": ctx.rng.randrange(10**6),
                           "picker": [], "other": [], "max_states": 16 if quick else None})
         if not quick:
             for k in range(ctx.n(1, 8)):
                 cases.append({"desc": gen_case(ctx.rng), "storage": ["file_array", "dict"][k % 2], "mode": "threads", "picker": []})
-        check_all(ctx, lab, cases, second=1 if quick else 3, max_states=36 if quick else 200, max_raises=6 if quick else None, second_pts=4 if quick else 24)
+        check_all(ctx, lab, cases, second=1 if quick else 3, max_states=36 if quick else 200, max_raises=6 if quick else None, second_pts=4 if quick else 24,
+                  raises2=1, raise_firsts_cap=12 if quick else 10**9)      # quick: raise-then-kill histories for the first pipelines only (corpus)
         ctx.notes.append(f"t(crash enumeration)={ctx.elapsed():.1f}s")
         c05_cleanup.stream(ctx, lab, quick)      # kills inside the removal of cleanup=True, then cleanup=False
         ctx.notes.append(f"t(+cleanup stream)={ctx.elapsed():.1f}s")
@@ -595,7 +704,7 @@ def replay(ctx, rec):
             print("real events :", json.dumps(crashfs.canon_real(ev0, f0))[:3000])
             print("model events:", json.dumps(crashfs.canon_model(ctx.lean([{"m": "map.events", "a": model_req(case)}])[0]["r"]["events"]))[:3000])
             return None
-        if hist[0]["kind"] == "raise":
+        if hist[0]["kind"] == "raise" and len(hist) == 1:
             d = lab.slot()
             r1, _e, _c = lab.run(lab.spec(case, d, True, fail={hist[0]["function"]: hist[0]["call_index"]}))
             fs_abs = crashfs.abstract(d)
@@ -609,9 +718,16 @@ def replay(ctx, rec):
                 for e in ev[:h["after_events"] + 1]:
                     print("   ", e[0], os.path.relpath(e[1], folder) if e[0] != "call" else e[1], len(e[2]) if e[0] == "write" else "")
             kills = [h for h in hist if h["kind"] == "kill"]
-            stages = [(ev0, kills[0]["after_events"], kills[0]["torn_bytes"], f0)]
-            show(1, ev0, kills[0], f0)
-            for n, h in enumerate(kills[1:], 2):
+            if hist[0]["kind"] == "raise":      # first interruption: a raising call; the folder it leaves = all events of the failing run
+                d = lab.slot()
+                r1, evr, _c = lab.run(lab.spec(case, d, True, fail={hist[0]["function"]: hist[0]["call_index"]}), trace=True)
+                lab.cleanup(d)
+                print(f"stage 1: call {hist[0]['call_index']} of {hist[0]['function']} raises:", r1)
+                stages, later = [(evr, len(evr), None, d)], kills
+            else:
+                stages, later = [(ev0, kills[0]["after_events"], kills[0]["torn_bytes"], f0)], kills[1:]
+                show(1, ev0, kills[0], f0)
+            for n, h in enumerate(later, 2):
                 # the events of stage n are those of the (traced, sequential) resumed run on the state left by the stages before it
                 prev = resume_state(lab, case, stages, True)
                 if "unmodelled" in prev or "ok" not in prev["impl"]:
